@@ -967,7 +967,13 @@ func (sw *storeWorld) doStream(ci int, op StoreOp, callSeq int) {
 		}
 	}
 	w.Log(Event{Kind: EvAPIRet, Client: ci, Op: op.Op, Note: fmt.Sprintf("%d results closed=%v", len(got), closed)})
-	sw.tracef("c%d %s(%s) -> %d results, closed=%v cancelled=%v err=%v", ci, what, shape, len(got), closed, cancelled, streamErr)
+	if cancelled {
+		// how many elements still arrive after a cancellation is decided by the Go runtime (a select
+		// between ctx.Done and the send): any prefix is legal, so the count is not part of the trace
+		sw.tracef("c%d %s(%s) -> cancelled after %d, closed=%v", ci, what, shape, op.K, closed)
+	} else {
+		sw.tracef("c%d %s(%s) -> %d results, closed=%v err=%v", ci, what, shape, len(got), closed, streamErr)
+	}
 	if !closed {
 		mode := "after the consumer drained it"
 		if cancelled {
